@@ -14,7 +14,7 @@ from . import c03
 PROPERTY = "C08"
 RULE = ("Cases = (kind, matrix): 'bin' 0/1 graphs (complete enumeration of labelled digraphs/graphs up to the stated n plus "
         "random, float64 and int64) and 'len' length matrices with integer lengths {1,2,3} or dyadic k/8 (many exact ties, exact sums); "
-        "directed and undirected, connected or not. Oracle = brute-force exact-rational sigma(s,t), sigma(s,t|v), sigma(s,t|e) from "
+        "directed and undirected, connected or not; lengths scattered around 1 (0.5, 1.5, ...); self-connections on some or all nodes. Oracle = brute-force exact-rational sigma(s,t), sigma(s,t|v), sigma(s,t|e) from "
         "the definition. Non-trivial = some ordered pair has >= 2 shortest paths AND some ordered pair is unreachable; distinct by hash of (kind, matrix).")
 BOUNDS = {"exhaustive_quick": "digraphs n<=4, graphs n<=5", "exhaustive_thorough": "digraphs n<=5 (1/4 sample of n=5 digraphs), graphs n<=6",
           "random_n": "2..14", "rtol": 1e-9}
@@ -131,8 +131,62 @@ def _check(case, ctx):
 
 @st.composite
 def cases(draw, nmax, kinds):
+    special = draw(st.integers(0, 9))
+    if special == 0 and "bin" in kinds:
+        # nearly complete 0/1 network: a few disjoint connections removed, self-connections on the nodes that lost one (or on the others):
+        # row counts that include the diagonal look like those of a complete network
+        n = draw(st.integers(4, min(nmax, 9)))
+        A = gen.complete_adj(n).astype(float)
+        pm = list(draw(st.permutations(list(range(n)))))
+        k = draw(st.integers(1, n // 2))
+        lost = set()
+        directed = draw(st.booleans())
+        for q in range(k):
+            a, b = pm[2 * q], pm[2 * q + 1]
+            A[a, b] = 0
+            lost.add(a)
+            if not directed:
+                A[b, a] = 0
+                lost.add(b)
+        on_lost = draw(st.booleans())
+        for v in range(n):
+            if (v in lost) == on_lost:
+                A[v, v] = 1
+        return {"kind": "bin", "W": A, "order": draw(st.sampled_from(gen.ORDERS)), "cut": None}
+    if special == 1 and "len" in kinds:
+        # a length matrix without a single zero entry (every pair connected, every node with a self-connection) and two length values
+        n = draw(st.integers(3, min(nmax, 8)))
+        lo, hi = draw(st.sampled_from([(1.0, 3.0), (0.5, 2.0), (1.0, 2.0), (2.0, 8.0)]))
+        pick = draw(st.lists(st.booleans(), min_size=n * n, max_size=n * n))
+        W = np.where(np.array(pick).reshape(n, n), lo, hi)
+        for i in range(n):          # a short ring, so that some two-step routes beat direct connections
+            W[i, (i + 1) % n] = lo
+        if draw(st.booleans()):
+            W = np.minimum(W, W.T)
+        return {"kind": "len", "W": W, "order": draw(st.sampled_from(gen.ORDERS)), "cut": None}
     c = draw(c03.cases(nmax, kinds))
-    return {"kind": c["kind"], "W": c["W"], "order": c.get("order", "C"), "cut": c.get("cut")}
+    W = np.array(c["W"])
+    n = len(W)
+    if c["kind"] == "len" and draw(st.integers(0, 3)) == 0:
+        # lengths scattered around 1 (0.5, 1.5, ...): their total can equal their number although none of them is 1
+        sym = bool(np.array_equal(W, W.T))
+        pr = [(i, j) for (i, j) in gen.pairs(n, not sym) if W[i, j] != 0]
+        pick = draw(st.lists(st.sampled_from([0.5, 1.5, 1.0, 0.5, 1.5, 2.0, 0.25, 1.75]), min_size=len(pr), max_size=len(pr)))
+        W = W.astype(float)
+        for (i, j), v in zip(pr, pick):
+            W[i, j] = v
+            if sym:
+                W[j, i] = v
+    if draw(st.integers(0, 2)) == 0 and n:
+        # self-connections: no shortest path between two different nodes uses one, so nothing may change
+        dg = draw(st.lists(st.integers(0, 2), min_size=n, max_size=n))
+        W = W.astype(float) if c["kind"] == "len" else W.copy()
+        for i, v in enumerate(dg):
+            if v:
+                W[i, i] = 1 if c["kind"] == "bin" else [0.5, 3.0][v - 1]
+        if all(dg) and draw(st.booleans()):
+            pass
+    return {"kind": c["kind"], "W": W, "order": c.get("order", "C"), "cut": c.get("cut")}
 
 
 _SPACES = {}
